@@ -516,6 +516,92 @@ class _RangeStep(ast.NodeTransformer):
     visit_ListComp = visit_GeneratorExp = visit_SetComp = visit_DictComp = _comp
 
 
+SIZED_ATTRS: dict = {}  # attribute name -> dump of N: set by the model (sized_attributes) before any function is normalised
+
+
+def sized_attributes(trees: list, init_only: set) -> dict:
+    """Attributes that hold a list of exactly N cells at any time, N an expression over `self.<attributes bound in constructors
+    only>`: every store in the package is `self.a = [c] * N`, or `self.a = xs` for a local `xs = [c] * N` never resized, or keeps
+    the length (`self.a[i] = v`, `self.a[:k] = [c] * k`); nothing calls a resizing method on `.a`, deletes from it or rebinds it
+    any other way.  Name-based over the whole package (two attributes of one name pool their stores: fewer facts, never wrong)."""
+    size: dict = {}
+    bad: set = set()
+    good_n: set = set()  # dumps of size expressions that are over `self.<init-only attribute>` / len() only
+
+    def n_ok(e: ast.AST) -> bool:
+        for x in ast.walk(e):
+            if isinstance(x, ast.Name) and x.id != "self" and x.id != "len":
+                return False
+            if isinstance(x, ast.Attribute) and not (isinstance(x.value, ast.Name) and x.value.id == "self" and x.attr in init_only):
+                return False
+            if isinstance(x, ast.Call) and not (isinstance(x.func, ast.Name) and x.func.id == "len"):
+                return False
+        return True
+
+    def repl(e: ast.AST):
+        if isinstance(e, ast.BinOp) and isinstance(e.op, ast.Mult):
+            for a, b in ((e.left, e.right), (e.right, e.left)):
+                if isinstance(a, ast.List) and len(a.elts) == 1:
+                    return b
+        return None
+    for tree in trees:
+        for fn in ast.walk(tree):
+            if not isinstance(fn, (ast.FunctionDef, ast.AsyncFunctionDef)):
+                continue
+            locs = _IndexToEnumerate.sized_locals(fn)
+            for n in ast.walk(fn):
+                pairs = []
+                if isinstance(n, ast.Assign):
+                    pairs = [(t, n.value) for t in n.targets]
+                elif isinstance(n, ast.AnnAssign) and n.value is not None:
+                    pairs = [(n.target, n.value)]
+                elif isinstance(n, ast.AugAssign) and isinstance(n.target, ast.Attribute):
+                    bad.add(n.target.attr)
+                elif isinstance(n, ast.Delete):
+                    for t in n.targets:
+                        for x in ast.walk(t):
+                            if isinstance(x, ast.Attribute):
+                                bad.add(x.attr)
+                elif isinstance(n, ast.Call) and isinstance(n.func, ast.Attribute) and isinstance(n.func.value, ast.Attribute) \
+                        and n.func.attr in ("append", "insert", "pop", "extend", "remove", "clear"):
+                    bad.add(n.func.value.attr)
+                elif isinstance(n, (ast.For, ast.With, ast.NamedExpr)):
+                    tg = n.target if isinstance(n, (ast.For, ast.NamedExpr)) else None
+                    for x in (ast.walk(tg) if tg is not None else []):
+                        if isinstance(x, ast.Attribute) and isinstance(x.ctx, ast.Store):
+                            bad.add(x.attr)
+                for t, v in pairs:
+                    if isinstance(t, (ast.Tuple, ast.List)):
+                        for x in ast.walk(t):
+                            if isinstance(x, ast.Attribute) and isinstance(x.ctx, ast.Store):
+                                bad.add(x.attr)
+                        continue
+                    if isinstance(t, ast.Attribute):
+                        nx = repl(v)
+                        if nx is not None and n_ok(nx):
+                            d = ast.dump(nx)
+                            good_n.add(d)
+                        elif isinstance(v, ast.Name) and v.id in locs:
+                            d = locs[v.id]
+                            for b in ast.walk(fn):
+                                bt = b.targets[0] if isinstance(b, ast.Assign) and len(b.targets) == 1 else b.target if isinstance(b, ast.AnnAssign) else None
+                                if isinstance(bt, ast.Name) and bt.id == v.id and b.value is not None:
+                                    bn = repl(b.value)
+                                    if bn is not None and n_ok(bn) and ast.dump(bn) == d:
+                                        good_n.add(d)
+                        else:
+                            bad.add(t.attr)
+                            continue
+                        if size.setdefault(t.attr, d) != d:
+                            bad.add(t.attr)
+                    elif isinstance(t, ast.Subscript) and isinstance(t.value, ast.Attribute) and isinstance(t.slice, ast.Slice):
+                        sl = t.slice
+                        nx = repl(v)
+                        if not (sl.lower is None and sl.step is None and sl.upper is not None and nx is not None and ast.dump(nx) == ast.dump(sl.upper)):
+                            bad.add(t.value.attr)
+    return {a: d for a, d in size.items() if a not in bad and d in good_n}
+
+
 class _IndexToEnumerate(ast.NodeTransformer):
     """`for i in range(len(X)): .. X[i] ..`             ->  `for i, _e in enumerate(X): .. _e ..`
        `for i in range(len(X) - 1, -1, -1): .. X[i] ..` ->  `for i, _e in reversed(list(enumerate(X))): .. _e ..`
@@ -535,11 +621,12 @@ class _IndexToEnumerate(ast.NodeTransformer):
                 binds[n.id] = binds.get(n.id, 0) + 1
         out: dict = {}
         for n in ast.walk(fn):
-            if isinstance(n, ast.Assign) and len(n.targets) == 1 and isinstance(n.targets[0], ast.Name) and binds.get(n.targets[0].id) == 1 \
+            tgt = n.targets[0] if isinstance(n, ast.Assign) and len(n.targets) == 1 else n.target if isinstance(n, ast.AnnAssign) and n.value is not None else None
+            if isinstance(tgt, ast.Name) and binds.get(tgt.id) == 1 \
                     and isinstance(n.value, ast.BinOp) and isinstance(n.value.op, ast.Mult):
                 for a, b in ((n.value.left, n.value.right), (n.value.right, n.value.left)):
                     if isinstance(a, ast.List) and len(a.elts) == 1 and isinstance(a.elts[0], ast.Constant):
-                        out[n.targets[0].id] = ast.dump(b)
+                        out[tgt.id] = ast.dump(b)
         for n in ast.walk(fn):
             if isinstance(n, ast.Call) and isinstance(n.func, ast.Attribute) and isinstance(n.func.value, ast.Name) and n.func.value.id in out \
                     and n.func.attr in ("append", "insert", "pop", "extend", "remove", "clear"):
@@ -601,7 +688,7 @@ class _IndexToEnumerate(ast.NodeTransformer):
             probe.iter = it.args[0]
             got = self._match_sized(probe)
             return (got[0], True) if got is not None and not got[1] else None
-        if not (isinstance(it, ast.Call) and isinstance(it.func, ast.Name) and it.func.id == "range" and not it.keywords and self.sized):
+        if not (isinstance(it, ast.Call) and isinstance(it.func, ast.Name) and it.func.id == "range" and not it.keywords and (self.sized or SIZED_ATTRS)):
             return None
         a = it.args
 
@@ -621,6 +708,10 @@ class _IndexToEnumerate(ast.NodeTransformer):
             if isinstance(n, ast.Subscript) and isinstance(n.ctx, ast.Load) and isinstance(n.value, ast.Name) and self.sized.get(n.value.id) == nd \
                     and isinstance(n.slice, ast.Name) and n.slice.id == i:
                 return ast.Name(id=n.value.id, ctx=ast.Load()), desc
+            # `self.regs[i]` for an attribute that holds a list of exactly N cells wherever it is bound (see sized_attributes)
+            if isinstance(n, ast.Subscript) and isinstance(n.ctx, ast.Load) and isinstance(n.value, ast.Attribute) and isinstance(n.value.value, ast.Name) \
+                    and n.value.value.id == "self" and SIZED_ATTRS.get(n.value.attr) == nd and isinstance(n.slice, ast.Name) and n.slice.id == i:
+                return copy.deepcopy(n.value), desc
         return None
 
     def visit_For(self, node: ast.For):
@@ -929,7 +1020,8 @@ def _inline_range_bounds(fn: ast.FunctionDef) -> ast.FunctionDef:
     for n in ast.walk(fn):
         if isinstance(n, ast.Assign) and len(n.targets) == 1 and isinstance(n.targets[0], ast.Name) and binds.get(n.targets[0].id) == 1 \
                 and n.targets[0].id not in params and isinstance(n.value, ast.BinOp) \
-                and not any(isinstance(x, (ast.Call, ast.Subscript, ast.IfExp, ast.Lambda, ast.NamedExpr)) for x in ast.walk(n.value)):
+                and not any(isinstance(x, (ast.Call, ast.Subscript, ast.IfExp, ast.Lambda, ast.NamedExpr, ast.List, ast.Tuple, ast.Dict, ast.Set, ast.ListComp,
+                                           ast.JoinedStr)) for x in ast.walk(n.value)):  # arithmetic on numbers only: `[c] * n` is a list
             free = {x.id for x in ast.walk(n.value) if isinstance(x, ast.Name)}
             if all(binds.get(v, 0) == 0 for v in free):
                 cands[n.targets[0].id] = n.value
@@ -954,6 +1046,38 @@ def _inline_range_bounds(fn: ast.FunctionDef) -> ast.FunctionDef:
     return new if hit[0] else fn
 
 
+class _IdentityComp(ast.NodeTransformer):
+    """`for t in [(a, b) for (a, b) in IT]: BODY`  ->  `for t in IT: BODY`   (a comprehension that rebuilds each element as it is;
+    for a loop the list and the iterable it copies are the same sequence of elements).  Tuples only rebuild tuples, so the element
+    pattern must be a name or a flat tuple of distinct names with no condition."""
+
+    @staticmethod
+    def _identity(c) -> bool:
+        if len(c.generators) != 1:
+            return False
+        g = c.generators[0]
+        if g.ifs or g.is_async:
+            return False
+        if isinstance(g.target, ast.Name):
+            return isinstance(c.elt, ast.Name) and c.elt.id == g.target.id
+        if isinstance(g.target, ast.Tuple) and isinstance(c.elt, ast.Tuple) and len(g.target.elts) == len(c.elt.elts) \
+                and all(isinstance(a, ast.Name) and isinstance(b, ast.Name) and a.id == b.id for a, b in zip(g.target.elts, c.elt.elts)) \
+                and len({a.id for a in g.target.elts}) == len(g.target.elts):
+            # the source elements must be tuples for the rebuilt tuple to be the same value: enumerate / zip / items yield tuples
+            it = g.iter
+            while isinstance(it, ast.Call) and isinstance(it.func, ast.Name) and it.func.id in ("reversed", "list", "sorted", "tuple") and len(it.args) == 1:
+                it = it.args[0]
+            return isinstance(it, ast.Call) and ((isinstance(it.func, ast.Name) and it.func.id in ("enumerate", "zip"))
+                                                 or (isinstance(it.func, ast.Attribute) and it.func.attr == "items"))
+        return False
+
+    def visit_For(self, node: ast.For):
+        self.generic_visit(node)
+        if isinstance(node.iter, (ast.ListComp, ast.GeneratorExp)) and self._identity(node.iter):
+            node.iter = node.iter.generators[0].iter
+        return node
+
+
 def normalise_loops(fn: ast.FunctionDef) -> ast.FunctionDef:
     fn = _inline_iterables(fn)
     fn = _inline_range_bounds(fn)
@@ -967,5 +1091,6 @@ def normalise_loops(fn: ast.FunctionDef) -> ast.FunctionDef:
     new = _Fuse().visit(copy.deepcopy(new))
     new = _KeysToItems().visit(new)
     new = _RangeStep().visit(new)
+    new = _IdentityComp().visit(new)
     ast.fix_missing_locations(new)
     return new
